@@ -804,6 +804,10 @@ class Polyhedron(Shape3D):
 
         """
         principal_moments, principal_axes = np.linalg.eigh(self.inertia_tensor)
+        if np.linalg.det(principal_axes) < 0:
+            # eigh only promises an orthogonal matrix; keep the rotation proper so
+            # that the shape is reoriented rather than mirrored.
+            principal_axes[:, 0] *= -1
         self._vertices = np.dot(self._vertices, principal_axes)
 
     def compute_form_factor_amplitude(self, q, density=1.0):  # noqa: D102
